@@ -102,5 +102,9 @@ func (fs *FS) fromOSPath(
 	if fsPath == "" {
 		fsPath = "."
 	}
+	if !hackpadfs.ValidPath(fsPath) {
+		// only clean paths map to an FS path: no "..", ".", empty elements or trailing separators
+		return "", errInvalid
+	}
 	return fsPath, nil
 }
